@@ -111,4 +111,72 @@ Section Proofs.
     Theorem ionq_branch_ti : gate_model O (GEig EZPow r rc g) = mscale O g (ionq_gate_matrix O Nti []).
     Proof. start EZPow @eig_ZPow. entries_with H H. Qed.
   End ClassMinusQuarter.
+  (* ---- native gates: the emitted parameters mean the same native gate ---- *)
+  Theorem ionq_native_gpi p pc : gate_model O (GGPI p pc) = ionq_gate_matrix O Ngpi [p; pc].
+  Proof. mat_entries ltac:(ring). Qed.
+  Theorem ionq_native_gpi2 p pc : gate_model O (GGPI2 p pc) = ionq_gate_matrix O Ngpi2 [p; pc].
+  Proof. mat_entries ltac:(ring). Qed.
+  (* Cirq's MSGate(phi0, phi1, theta) takes a = exp(2 pi i (phi0+phi1)), b = exp(2 pi i (phi0-phi1)); the payload carries
+     phases = [phi0, phi1] and angle = theta, which the vendor reads as p0 = exp(2 pi i phi0), p1 = exp(2 pi i phi1) *)
+  Theorem ionq_native_ms p0 p0c p1 p1c t tc :
+    gate_model O (GIonqMS (p0 * p1) (p0c * p1c) (p0 * p1c) (p0c * p1) t tc) = ionq_gate_matrix O Nms [p0; p0c; p1; p1c; t; tc].
+  Proof. mat_entries ltac:(ring). Qed.
+  Theorem ionq_native_zz t tc : gate_model O (GIonqZZ t tc) = ionq_gate_matrix O Nnzz [t; tc].
+  Proof. mat_entries ltac:(ring). Qed.
 End Proofs.
+
+(* ---- the dispatch as a whole: whatever the decision function emits for a family in a class means the Cirq gate ---- *)
+Theorem ionq_dispatch_sound : forall K (O : Ops K), Laws O -> forall (f : ifam) (c : eclass) (r rc g : K),
+  kmul O r rc = k1 O -> class_hyp O c r -> forall m, ionq_emit_matrix O f c r rc = Some m ->
+  gate_model O (GEig (ifam_eig f) r rc g) = mscale O (emit_phase O f c r g) m.
+Proof.
+  intros K O L f c r rc g U H m E.
+  destruct f, c; cbv [ionq_emit_matrix ionq_dispatch ionq_name String.eqb Ascii.eqb Bool.eqb] in E; simpl in E;
+    inversion E; subst m; clear E; cbv [emit_phase ionq_dispatch ifam_eig]; simpl in H;
+    first [ apply (ionq_branch_x O L r rc g U H) | apply (ionq_branch_v O L r rc g U H) | apply (ionq_branch_vi O L r rc g U H)
+          | apply (ionq_branch_rx O L r rc g U) | apply (ionq_branch_y O L r rc g U H) | apply (ionq_branch_ry O L r rc g U)
+          | apply (ionq_branch_z O L r rc g U H) | apply (ionq_branch_s O L r rc g U H) | apply (ionq_branch_si O L r rc g U H)
+          | apply (ionq_branch_t O L r rc g U H) | apply (ionq_branch_ti O L r rc g U H) | apply (ionq_branch_rz O L r rc g U)
+          | apply (ionq_branch_xx O L r rc g U) | apply (ionq_branch_yy O L r rc g U) | apply (ionq_branch_zz O L r rc g U)
+          | apply (ionq_branch_cnot O L r rc g U H) | apply (ionq_branch_h O L r rc g U H) | apply (ionq_branch_swap O L r rc g U H) ].
+Qed.
+
+(* ---- D4: pauliexp.  Cirq's PauliStringPhasorGate (documented: e^{i pi exponent_pos} on the +1 eigenspace, e^{i pi exponent_neg}
+   on the -1 eigenspace of the string) equals, up to the unit factor x*y = e^{i pi (exponent_pos+exponent_neg)/2}, the vendor's
+   exp(-i time P) with time = pi (exponent_neg - exponent_pos)/2 -- for strings of ANY length, with the emitted term string the
+   REVERSE of Cirq's big-endian string (little-endian convention).  x = e^{i pi exponent_pos/2}, y = e^{i pi exponent_neg/2};
+   the vendor's unit is u = e^{i time} = y/x (x/y when the coefficient -1 has been folded into the exponents). *)
+Section PauliExp.
+  Context {K : Type} (O : Ops K) (L : Laws O).
+  Add Ring Kring17b : (law_ring O L).
+  Infix "+" := (kadd O). Infix "*" := (kmul O). Infix "-" := (ksub O).
+  Notation "- a" := (kopp O a).
+  Notation z1 := (k1 O). Notation hf := (khalf O). Notation ii := (ki O).
+
+  Lemma vscale_vadd f a : forall b, vscale O f (vadd O a b) = vadd O (vscale O f a) (vscale O f b).
+  Proof. induction a as [|x a IH]; intros [|y b]; try reflexivity. change (f * (x + y) :: vscale O f (vadd O a b) = (f * x + f * y) :: vadd O (vscale O f a) (vscale O f b)). apply (f_equal2 cons); [ring | apply IH]. Qed.
+  Lemma mscale_madd f A : forall B, mscale O f (madd O A B) = madd O (mscale O f A) (mscale O f B).
+  Proof. induction A as [|x A IH]; intros [|y B]; simpl; try reflexivity. apply (f_equal2 cons); [apply vscale_vadd | apply IH]. Qed.
+  Lemma vscale_vscale f c a : vscale O f (vscale O c a) = vscale O (f * c) a.
+  Proof. induction a as [|x a IH]; simpl; [reflexivity|]. apply (f_equal2 cons); [ring | apply IH]. Qed.
+  Lemma mscale_mscale f c A : mscale O f (mscale O c A) = mscale O (f * c) A.
+  Proof. induction A as [|x A IH]; simpl; [reflexivity|]. apply (f_equal2 cons); [apply vscale_vscale | apply IH]. Qed.
+
+  Variables x xc y yc : K.
+  Hypothesis Ux : x * xc = z1.
+  Hypothesis Uy : y * yc = z1.
+
+  Theorem pauliexp_endianness (codes : list nat) (neg : bool) :
+    cirq_psp_matrix O codes neg x y
+    = mscale O (x * y) (ionq_pauliexp_matrix O (rev codes) (if neg then x * yc else y * xc) (if neg then y * xc else x * yc)).
+  Proof.
+    unfold cirq_psp_matrix, ionq_pauliexp_matrix. rewrite rev_involutive, rev_length.
+    rewrite mscale_madd, !mscale_mscale.
+    pose proof (half2 O L) as H2. pose proof (ii2 O L) as I2.
+    assert (Vx : xc * x = z1) by (rewrite <- Ux; ring).
+    assert (Vy : yc * y = z1) by (rewrite <- Uy; ring).
+    destruct neg; (apply (f_equal2 (madd O));
+      [apply (f_equal (fun c => mscale O c (mid O (Nat.pow 2 (length codes)))))
+      | apply (f_equal (fun c => mscale O c (pauli_product O codes)))]); ring [Ux Uy I2].
+  Qed.
+End PauliExp.
